@@ -19,6 +19,7 @@ SPEC_BYTES = {"file::SIGNATURE": b"CGPH", "file::OID_FAN_CHUNK_ID": b"OIDF", "fi
 
 def run(db, chk):
     chain_offset_rule(db, chk)
+    position_units_rule(db, chk)
     for n, want in SPEC_INT.items():
         c = db.const(P + n)
         chk.ob("spec-constant", n, c.get("v") == want, "is %r, format says %r" % (c.get("v"), want), "%s:%d" % (c["file"], c["line"]), key="spec-constant|" + n)
@@ -115,3 +116,53 @@ def chain_offset_rule(db, chk):
         chk.ob("chain-offset-accumulates", "Graph::lookup_by_id offset `%s`" % f.local_name(l0), not bad,
                "the offset is overwritten instead of accumulated (line %s): ids found in the third or a later file of a split chain get the graph position of a different commit" % bad,
                "%s:%d" % (f.file, bad[0] if bad else f.line), key="chain-offset|lookup_by_id")
+
+
+def position_units_rule(db, chk):
+    """two kinds of position exist: gix_commitgraph::Position counts over the whole chain, file::Position within one file.  Parent positions stored
+    in a file (also in the extra-edge list) are chain-wide.  The only place that may relate a chain-wide position to the commit count of ONE file
+    is the translation in `impl Graph` (lookup_by_pos / lookup_by_id, which subtract the counts of the files below).  Anywhere else a comparison
+    or subtraction between `graph::Position.0` and File::num_commits() is a unit error that only shows with split chains.
+    Zero-expected rule; positive control: the translation in Graph::lookup_by_pos must be recognised."""
+    from gx.flow import comparisons
+
+    def tags(f, fl, op):
+        out = set()
+        if "p" not in op:
+            return out
+        for r in fl.roots(op, stop_named=False):
+            if r[0] == "call" and r[1].endswith("::num_commits") and "Graph" not in r[1]:
+                out.add("count")
+            if r[0] in ("arg", "var"):
+                proj = r[2] if r[0] == "arg" else r[3]
+                ty = f.locals[r[1]]
+                if ".0" in proj and "gix_commitgraph::Position" in ty:
+                    out.add("gpos")
+        return out
+    ctl = 0
+    n = 0
+    for f in db.by_crate["gix_commitgraph"]:
+        if f.kind == "promoted":
+            continue
+        fl = Flow(f)
+        pairs = [(cm["a"], cm["b"], "comparison", cm.get("line", f.line)) for cm in comparisons(f)]
+        for bi, si, pl, rv, ln, mc in f.assigns():
+            if rv[0] == "bin" and rv[1].replace("WithOverflow", "").replace("Unchecked", "") in ("Sub", "Add"):
+                pairs.append((rv[2], rv[3], rv[1], ln))
+        for c in f.calls():
+            if c.is_(r"::checked_sub$|::checked_add$|::saturating_sub$|::wrapping_sub$|cmp::PartialOrd>?::(lt|le|gt|ge)$|cmp::Ord>?::cmp$") and len(c.args) == 2:
+                pairs.append((c.args[0], c.args[1], c.name.split("::")[-1], c.line))
+        for a, b, what, ln in pairs:
+            ta, tb = tags(f, fl, a), tags(f, fl, b)
+            if not (("gpos" in ta and "count" in tb) or ("gpos" in tb and "count" in ta)):
+                continue
+            n += 1
+            allowed = f.name.startswith("gix_commitgraph::access::<impl gix_commitgraph::Graph>::")
+            if allowed:
+                ctl += 1
+                chk.ob("chain-position-vs-file-count", "%s %s@%s (the translation)" % (f.name.split("::")[-1], what, ln), True)
+            else:
+                chk.ob("chain-position-vs-file-count", "%s %s@%s" % (f.name.split("gix_commitgraph::")[-1], what, ln), False,
+                       "a chain-wide graph::Position is related to the commit count of a single file outside Graph's translation: wrong for every file above the base of a split chain",
+                       "%s:%s" % (f.file, ln), key="position-units|%s" % f.name.split("gix_commitgraph::")[-1])
+    chk.floor("control: Graph translates chain positions with per-file counts", ctl, 1)
